@@ -377,3 +377,17 @@ class WasabiJson:
                 yield "ensures.ExtPubKey", eq(d.get("ExtPubKey"), spec_xkey(ver, m.depth + 3, fp2, HARD, cc, serP(U.ecmul(k))))
                 yield "ensures.MasterFingerprint", eq(d.get("MasterFingerprint"), E.HexStrUpper(fingerprint_of_point(U.ecmul(m.k))))
                 yield "ensures.keys", set(d) == {"ExtPubKey", "MasterFingerprint", "ColdCardFirmwareVersion"}
+
+
+class CanaryCoinTypeAlwaysZero(_BipGroup):
+    """must FAIL: spec with coin type 0' on both networks"""
+    which = "bip44"
+    props = ("C06", "C16")
+
+    def post(self, c, I, out):
+        if out.returned and isinstance(out.value, tuple):
+            keys = c.deref(out.value[0]).d
+            yield "canary.coin0", eq(keys.get("path"), mk_str(["m/44'/0'/", Dec(I.account), "'"]))
+
+
+CANARIES += [CanaryCoinTypeAlwaysZero()]
